@@ -51,6 +51,41 @@ pub fn dispatch(op: &str, toks: &[&str]) -> String {
             let frames = ref_decrypt(&file, PASSWORD).map(|x| x.1.len()).unwrap_or(0);
             format!("frames={} {}", frames, tamper_file::<Vec<u8>>(&file, 0, stride, &data.canon_string()))
         }
+        // crypto_tail_search <n_from> <n_to> <seed> : look for an encrypted save of incompressible Vec<u8> data whose LAST frame
+        // holds only a few trailing bytes of the compressed stream; drop that frame (a truncation at a frame boundary) and load
+        "crypto_tail_search" => {
+            let (a, b, seed) = (toks[0].parse::<usize>().unwrap(), toks[1].parse::<usize>().unwrap(), toks[2].parse::<u64>().unwrap());
+            let p = std::env::temp_dir().join(format!("sfh_tail_{}.bin", std::process::id()));
+            let mut found = Vec::new();
+            let mut smallest = usize::MAX;
+            for n in a..b {
+                let data = lcg_bytes(n, seed);
+                savefile::save_encrypted_file(&p, 0, &data, PASSWORD).unwrap();
+                let file = std::fs::read(&p).unwrap();
+                if let Some((_, sizes)) = ref_decrypt(&file, PASSWORD) {
+                    if sizes.len() >= 2 {
+                        let last = *sizes.last().unwrap();
+                        smallest = smallest.min(last);
+                        if last <= 16 {
+                            let cut = file.len() - (8 + last + 16);
+                            std::fs::write(&p, &file[..cut]).unwrap();
+                            let r = std::panic::catch_unwind(|| savefile::load_encrypted_file::<Vec<u8>, _>(&p, 0, PASSWORD));
+                            let what = match r {
+                                Err(_) => "PANIC".to_string(),
+                                Ok(Ok(v)) => if v == data { "LOADED-SAME".to_string() } else { "LOADED-DIFFERENT".to_string() },
+                                Ok(Err(e)) => format!("ERR-{}", err_class(&e)),
+                            };
+                            found.push(format!("n={} last={} frames={} -> {}", n, last, sizes.len(), what));
+                            if found.len() >= 6 {
+                                break;
+                            }
+                        }
+                    }
+                }
+            }
+            std::fs::remove_file(&p).ok();
+            format!("smallest_last_frame={} | {}", smallest, found.join(" ; "))
+        }
         // crypto_serve <write program> <tamper: - | p<pos>:<val> | t<len> | d<frame> (duplicate a frame)> <sched csv|-> <budget|-> <requests csv>
         // Builds an encrypted stream with CryptoWriter, tampers with it, then serves read_exact requests through a
         // CryptoReader over a reader that follows the schedule (0 = Interrupted, c = at most c bytes; afterwards unlimited)
